@@ -11,7 +11,9 @@ Deductive:
                                 (KeyError / ValueError) leaves the store unchanged
 Bounded (real ManageSieveServer + dict backend): every script command before authentication is NO and changes no store;
 all single commands and pairs after authentication agree with the model (conditions, GETSCRIPT bytes, LISTSCRIPTS names
-and ACTIVE mark, backend store); a second user's store is untouched; two users one after the other on one connection.
+and ACTIVE mark, backend store); a second user's store is untouched; two users one after the other on one connection;
+several sessions of one user see one store; the maildir backend's single-script store is held to the same statement
+(wire-only, 7 programs; one known finding: its only script is always ACTIVE and can be deleted).
 """
 from pyvc.prop import Property, Bounded
 from . import sieve as S
@@ -28,7 +30,10 @@ PROPERTY = Property(
                      'name, LISTSCRIPTS, 5 RENAMEs incl. onto an existing and the same name, CHECKSCRIPT, HAVESPACE, '
                      'missing names): each before authentication; each and all pairs after authentication; each after '
                      'user other worked and unauthenticated on the same connection; thorough adds 6000 seeded programs '
-                     'of length 3-5 and relogin pairs',
+                     'of length 3-5 and relogin pairs; several sessions of one user (two open from the start while the '
+                     'store is empty, a third opened at the end, re-authentication on one connection) for a fresh user and '
+                     'for the demo user after emptying the store; 7 programs on the maildir backend (single-script store: '
+                     'put/get incl. zero bytes, another name, delete of the active script), wire-only',
                      bounded_sieve('C19'), decisive=False)],
     level='proof', design_ref='6 C19',
     trusted_base=['FilterState.run maps commands onto FilterSet calls (bounded only)',
